@@ -58,7 +58,7 @@ def word_of(fn, i):
     return '?' + n['k']
 
 
-def value_class(fn, i):
+def value_class(fn, i, depth=0):
     n = fn.sn(i)
     if n is None:
         return ('other', '?')
@@ -75,6 +75,11 @@ def value_class(fn, i):
             return ('addr', fn.locals[t['id']]['n'])
         return ('addr', fn.text(m['ch'][0]))
     if m is not None and m['k'] == 'DeclRefExpr' and 'id' in m:
+        if m['id'] in fn.single_defs and depth < 4:
+            # a named value: const auto self = reinterpret_cast<uintptr_t>(&curr)
+            v = value_class(fn, fn.single_defs[m['id']], depth + 1)
+            if v[0] in ('addr', 'const'):
+                return v
         return ('param' if fn.locals[m['id']]['p'] else 'local', fn.locals[m['id']]['n'])
     if m is not None and m['k'] == 'CXXThisExpr':
         return ('addr', 'this')
